@@ -651,6 +651,7 @@ class LanczosGroundState(KrylovBased):
         Returns the number of steps performed.
         """
         h = self._h_krylov
+        self._cache = []  # don't keep Krylov vectors of a previous run (wrong re-orthogonalization otherwise)
         w = self.psi0  # initialize
         beta = npc.norm(w)
         if beta < self._cutoff:
